@@ -11,7 +11,7 @@ RULE = ("random multifurcating trees (3..16 tips, 40 in thorough; rooted/unroote
         "the tree | 0 | a random dyadic | -1 | larger than all; collapse by support likewise; collapse by depth with every "
         "kind of interval (min<=max, min>max, 0, 1, n/2, beyond n); resolve with a recorded rand stream}; removeRoot and "
         "removeTips false (the commands' defaults, exact-set oracle) and the other flag values (correspondence, same tips, "
-        "well-formed); negative lengths in a share of the trees (resolve: distances also compared with every present length read as itself; collapse by length); resolve (and collapse, correspondence only) on trees with single-child inner nodes - above polytomies, chains, under the root, the shape Reroot() leaves behind - with the oracle: such nodes stay and none is created, every node ends with at most 3 neighbours, input splits and distances kept; non-trivial = the structure changed; distinct = distinct case text.  Boundaries: thresholds are also drawn from {a length (support) of the tree, that value +- 2^-30, +- 2^-40, the next float64 above / below it, 0 with tiny positive lengths (2^-30, 2^-40, 2^-52) put on inner branches, a negative value}; some inner branches get the threshold +- a tiny dyadic as length (support); depth intervals are drawn around the depths present in the tree (d-1, d, d+1).  All values are exactly representable float64 and compared exactly (rationals) by the model and the oracle")
+        "well-formed); supports and p-values on tip branches and p-values on inner branches in a share of the trees (collapse by support with thresholds around the tip supports, by length, by depth, resolve: no tip is removed, every branch keeps its length, support and p-value); negative lengths in a share of the trees (resolve: distances also compared with every present length read as itself; collapse by length); resolve (and collapse, correspondence only) on trees with single-child inner nodes - above polytomies, chains, under the root, the shape Reroot() leaves behind - with the oracle: such nodes stay and none is created, every node ends with at most 3 neighbours, input splits and distances kept; non-trivial = the structure changed; distinct = distinct case text.  Boundaries: thresholds are also drawn from {a length (support) of the tree, that value +- 2^-30, +- 2^-40, the next float64 above / below it, 0 with tiny positive lengths (2^-30, 2^-40, 2^-52) put on inner branches, a negative value}; some inner branches get the threshold +- a tiny dyadic as length (support); depth intervals are drawn around the depths present in the tree (d-1, d, d+1).  All values are exactly representable float64 and compared exactly (rationals) by the model and the oracle")
 TRUSTED = ["tree built through NewNode/NewEdge + verif hooks (exact neighbour order); dump through Neigh()/Edges()/Left()/Right()"]
 ASSUMPTIONS = ["math/rand: Intn/Int31n/Perm transcribed in Model/Rand.v; the recorded Int63 stream is what Resolve consumes"]
 LEVEL_TEXT = "theorems in coq/Properties/C07.v about Model/Collapse.v; correspondence by exact structural equality with the Go result"
@@ -235,6 +235,34 @@ def gen(rng, tier):
                 ops.append({"op": Sym("resolve"), "tree": T(t2), "seed": rng.randrange(1, 2**31), "nraw": 4 * nb + 16})
                 rr, rt = flags()
                 ops.append({"op": Sym("collapse_len"), "tree": T(t2), "l": rng.choice([Fraction(0), Fraction(-1, 4), Fraction(1, 2)]), "rr": rr, "rt": rt})
+        # supports (and p-values) on TIP branches - Newick text cannot express them but RemoveSingleNodes, CollapseClade or
+        # Edge.SetSupport create them - and p-values on inner branches: a tip is never removed whatever its support, and
+        # every branch (tip branches included) keeps its length, support and p-value through collapse and resolve
+        if rng.random() < (0.6 if tier == "search" else 0.35):
+            t3 = copy.deepcopy(t)
+            tipsup = []
+            for x in preorder(t3):
+                for e, c in kids(x):
+                    if not kids(c):
+                        if rng.random() < 0.6:
+                            e["sup"] = rng.choice([Fraction(0), g.dyadic(64, 64), g.dyadic(64, 64), Fraction(1)])
+                            tipsup.append(e["sup"])
+                            if rng.random() < 0.5:
+                                e["pv"] = g.dyadic(64, 64)
+                    elif e["sup"] is not None and rng.random() < 0.6:
+                        e["pv"] = g.dyadic(64, 64)
+            allsup = edge_values(t3, "sup")
+            cands = [Fraction(2), Fraction(1, 2)] + ([max(tipsup) + Fraction(1, 64), rng.choice(tipsup), rng.choice(tipsup) + Fraction(1, 64)] if tipsup else []) \
+                    + ([rng.choice(allsup)] if allsup else [])
+            for s_ in rng.sample(cands, min(2, len(cands))):
+                rr, _ = flags()
+                ops.append({"op": Sym("collapse_sup"), "tree": T(t3), "s": s_, "rr": rr, "rt": False})
+            lens3 = edge_values(t3, "len")
+            rr, rt = flags()
+            ops.append({"op": Sym("collapse_len"), "tree": T(t3), "l": rng.choice(lens3 + [Fraction(0), Fraction(1000)]), "rr": rr, "rt": rt})
+            rr, rt = flags()
+            ops.append({"op": Sym("collapse_depth"), "tree": T(t3), "min": rng.choice([0, 1, 1, 2]), "max": rng.choice([1, 2, 3, ntips]), "rr": rr, "rt": rt})
+            ops.append({"op": Sym("resolve"), "tree": T(t3), "seed": rng.randrange(1, 2**31), "nraw": 4 * nb + 16})
         # depth intervals around the depths present in the tree
         ds = branch_depths(t)
         if ds:
